@@ -1,9 +1,9 @@
-\* exhaustive design model, required tables: all trees whose varied chain has length <= 3 from
+\* exhaustive design model, required tables: all trees whose varied chain has length <= 2 from
 \* every class, all lifecycles of <= 4 calls
 SPECIFICATION Spec
 CONSTANTS
   Variant = "required"
-  MaxDepth = 3
+  MaxDepth = 2
   MaxLife = 4
   Roots <- AllRoots
 INVARIANT TypeOK
